@@ -26,7 +26,7 @@ PARAM_ARGNAMES = {'pobj', 'paramobj'}
 ALLOWED_WRITERS = {
     'frappy.modulebase.Module.announceUpdate': 'the funnel itself',
     'frappy.modulebase.Module._handle_writes': 'initial marking of the entry during Module.__init__, before anything can observe it',
-    'frappy_mlz.entangle.AnalogOutput.applyMainUnit': 'runs inside Module.__init__ and is immediately followed by a regular assignment',
+    'frappy_mlz.entangle.AnalogOutput._init_limits': 'driver package: runs inside Module.__init__ (via applyMainUnit) and is immediately followed by a regular assignment',
 }
 
 
